@@ -20,6 +20,19 @@ def mk_tr(spec):
         return mk_tr(spec[1]) | mk_tr(spec[2])
     if spec[0] == 'comp':
         return TransformerComposition([mk_tr(x) for x in spec[1]])
+    if spec[0] == 'user':
+        # a user-defined pass: the body of RemoveRedundantGates under its own class, with the given
+        # passes declared as its pre- and post-transformers (which bring their own implied passes)
+        from cirbo.core.circuit.transformer import Transformer
+
+        class UserSweep(Transformer):
+            def __init__(self, pre, post):
+                super().__init__(pre_transformers=pre, post_transformers=post)
+
+            def _transform(self, circuit):
+                return RemoveRedundantGates()._transform(circuit)
+
+        return UserSweep([mk_tr(x) for x in spec[1]], [mk_tr(x) for x in spec[2]])
     raise ValueError(spec)
 
 
@@ -29,7 +42,7 @@ def is_empty_pipeline(t):
         return all(is_empty_pipeline(x) for x in t[1])
     if isinstance(t, list) and t and t[0] == 'or':
         return is_empty_pipeline(t[1]) and is_empty_pipeline(t[2])
-    return False
+    return False   # (a user-defined pass is never empty: it has a body)
 
 
 def py_passes(req):
@@ -61,14 +74,18 @@ def py_passes(req):
 LEAVES = ['RRG', 'RRG+', 'MUO', 'MDG', 'MEG']
 
 
-def gen_spec(rng, depth=0, heavy=True):
+def gen_spec(rng, depth=0, heavy=True, user=False):
     leaves = LEAVES if heavy else LEAVES[:-1]
     r = rng.random()
+    if user and depth < 2 and r < 0.3:
+        # user-defined passes with (possibly nested) declared dependencies: search oracle only
+        return ['user', [gen_spec(rng, depth + 1, heavy, user) for _ in range(rng.randint(0, 1))],
+                [gen_spec(rng, depth + 1, heavy, user) for _ in range(rng.randint(0, 2))]]
     if depth >= 2 or r < 0.5:
         return rng.choice(leaves)
     if r < 0.8:
-        return ['or', gen_spec(rng, depth + 1, heavy), gen_spec(rng, depth + 1, heavy)]
-    return ['comp', [gen_spec(rng, depth + 1, heavy) for _ in range(rng.randint(0, 3))]]
+        return ['or', gen_spec(rng, depth + 1, heavy, user), gen_spec(rng, depth + 1, heavy, user)]
+    return ['comp', [gen_spec(rng, depth + 1, heavy, user) for _ in range(rng.randint(0, 3))]]
 
 
 def gen_pass_circuit(ctx, rng, n_in=5):
